@@ -3,26 +3,24 @@
   (expected: a subset of {propext, Classical.choice, Quot.sound}).
 -/
 import RdfModel.Props.C17
-import RdfModel.Props.C17Facts
 open RdfModel RdfModel.C17
 
 #print axioms RdfModel.C17.acyclic1_iff_no_cycle1
-#print axioms RdfModel.C17.export_terminates
+#print axioms RdfModel.C17.export_terminates_partial
 #print axioms RdfModel.C17.export_fuel_irrelevant
 #print axioms RdfModel.C17.export_diverges_of_cycle
 #print axioms RdfModel.C17.export_diverges_witness
 #print axioms RdfModel.C17.not_export_terminates_all
-#print axioms RdfModel.C17.flatten_export
+#print axioms RdfModel.C17.flatten_export_partial
 #print axioms RdfModel.C17.two_cycle_dropped
 #print axioms RdfModel.C17.not_flatten_export_all
-#print axioms RdfModel.C17.dataset_flatten_export
+#print axioms RdfModel.C17.dataset_flatten_export_partial
 #print axioms RdfModel.C17.cross_graph_split
 #print axioms RdfModel.C17.not_dataset_flatten_export_all
 #print axioms RdfModel.C17.list_statement_flatten
 #print axioms RdfModel.C17.list_statement_nil
 #print axioms RdfModel.C17.export_terminates_repaired
 #print axioms RdfModel.C17.flatten_export_repaired
-#print axioms RdfModel.C17.dataset_flatten_export_repaired
+#print axioms RdfModel.C17.dataset_flatten_export_repaired_partial
 #print axioms RdfModel.C17.cross_graph_split_repaired
 #print axioms RdfModel.C17.not_dataset_flatten_export_all_repaired
-#print axioms RdfModel.C17.gen_desc_facts
